@@ -45,12 +45,13 @@ pub fn run_guarded(prop: &dyn Property, bytes: &[u8], cfg: &RunCfg) -> Verdict {
             let msg = take_last_panic().unwrap_or_else(|| "<unknown panic>".into());
             // location part is the stable signature
             let loc = msg.rsplit(" @ ").next().unwrap_or("").to_string();
-            let loc_file = loc.rsplit('/').next().unwrap_or(&loc).to_string();
+            let parts: Vec<&str> = loc.rsplit('/').take(2).collect();
+            let loc_file = parts.into_iter().rev().collect::<Vec<_>>().join("/");
             Verdict::Fail(Failure {
                 clause: "panic".into(),
                 key: format!("{}|panic|{}", prop.id(), loc_file),
                 detail: msg,
-                decoded: serde_json::json!({"bytes": util::hex(bytes)}),
+                decoded: prop.describe(bytes).unwrap_or_else(|| serde_json::json!({"bytes": util::hex(bytes)})),
             })
         }
     }
